@@ -51,12 +51,12 @@ func C11(tier common.Tier) int {
 		bound = 2
 	}
 	run.SetRule("state = one complete schedule of the analysis action DAG (8 analyzers x packages) under a cooperative scheduler that owns every cross-action operation (action start, ImportPackageFact, ExportPackageFact, Report, ReadFile, action end); the REAL Analyzer.Run functions execute in every schedule. All schedules with at most `bound` deviations from the default choice (keep running the current action, else lowest ready action) are enumerated depth-first; for each, diagnostics (position, analyzer, full message text) and the gob bytes of every exported fact must equal those of the default schedule. Conformance: the default schedule equals checker.Analyze in sequential and parallel mode. Run sets: every non-empty subset and every permutation of root packages, sequential and parallel, must give identical per-package results. Real drivers: gogreement -json vs -debug=p vs go vet, permuted package lists, with/without unrelated packages, repeated runs: byte-identical normalised output. Sync seam: in the harness build whose src/analyzer imports a cooperative stand-in for package sync, Once.Do entry, a blocked Once.Do and every flag read inside the configuration reader's critical section are scheduling points too; every execution starts with the process-wide configuration fresh under scan-tests=true exclude-paths=gen on a program whose diagnostics differ under any other configuration, and all schedules within the bound must agree with the default one (and with the want markers). Complement (sampling, reported as such): the -race build of the real binary, free-running on 16 cores, on every fixture once and several times on a corpus of 16 independent packages (+8 consumers) that exercise every annotation reader and checker, must print no DATA RACE. Non-trivial = a schedule that differs from the default order.",
-		fmt.Sprintf("deviation bound %d over 6 programs (chain+unrelated, diamond+unrelated, line-directives, shared-syntax, file-boundaries, ignores-everywhere) and over the config-matters program with the sync seam; all run sets and root permutations; 3 driver modes x permutations x 3 repetitions; race runs", bound))
+		fmt.Sprintf("deviation bound %d over 6 programs (chain+unrelated, diamond+unrelated, line-directives, shared-syntax, file-boundaries, ignores-everywhere, impl-texts) and over the config-matters program with the sync seam; all run sets and root permutations; 3 driver modes x permutations x 3 repetitions; race runs", bound))
 	run.Assume("scheduling points at Pass callbacks are sufficient for order dependence through shared state; unsynchronised accesses between points are delegated to the free-running -race pass", "Go's per-map random iteration order is re-drawn in every execution: a message built by ranging over a map shows up as a mismatch with high probability but is not owned by the scheduler")
 	shapes := e4.Shapes()
 	progs := []*prog.Program{e4.WithUnrelated(e4.Chain(shapes[1])), e4.WithUnrelated(e4.Diamond(shapes[3]))}
-	progs = append(progs, e4.LineDirectives(), e4.SharedSyntax(), e4.FileBoundaries(), e4.IgnoresEverywhere())
-	names := []string{"chain+unrelated", "diamond+unrelated", "line-directives", "shared-syntax", "file-boundaries", "ignores-everywhere"}
+	progs = append(progs, e4.LineDirectives(), e4.SharedSyntax(), e4.FileBoundaries(), e4.IgnoresEverywhere(), e4.ImplTexts())
+	names := []string{"chain+unrelated", "diamond+unrelated", "line-directives", "shared-syntax", "file-boundaries", "ignores-everywhere", "impl-texts"}
 
 	common.Sharded(run, common.NumWorkers(), func(run *common.Run, sh common.Shard) {
 		for pi, p := range progs {
